@@ -89,13 +89,20 @@ func (i *Interpreter) GetModuleResolver() *ModuleResolver {
 
 // Request represents an HTTP request
 type Request struct {
-	Path      string
-	Method    string
-	Params    map[string]string
-	Body      interface{}
-	Headers   map[string]string
-	AuthData  map[string]interface{} // Authenticated user data from JWT
-	SSEWriter interface{}            // SSEWriter for SSE routes (implements executor.SSEWriter)
+	Path     string
+	Method   string
+	Params   map[string]string
+	Body     interface{}
+	Headers  map[string]string
+	AuthData map[string]interface{} // Authenticated user data from JWT
+	// RawQuery, when HasRawQuery is set, is the still-encoded query string of
+	// the request and Path carries the path only. Callers that already hold
+	// the two apart (an *http.Request) must pass them apart: gluing them
+	// with "?" lets a path segment containing an encoded "?" (%3F) be
+	// mistaken for the start of the query string.
+	RawQuery    string
+	HasRawQuery bool
+	SSEWriter   interface{} // SSEWriter for SSE routes (implements executor.SSEWriter)
 }
 
 // Response represents an HTTP response
@@ -500,7 +507,13 @@ func (i *Interpreter) ExecuteRoute(route *Route, request *Request) (*Response, e
 	routeEnv := NewChildEnvironment(i.globalEnv)
 
 	// Extract path parameters
-	params, err := extractPathParams(route.Path, request.Path)
+	var params map[string]string
+	var err error
+	if request.HasRawQuery {
+		params, err = extractPathParamsExact(route.Path, request.Path)
+	} else {
+		params, err = extractPathParams(route.Path, request.Path)
+	}
 	if err != nil {
 		return nil, err
 	}
@@ -511,7 +524,11 @@ func (i *Interpreter) ExecuteRoute(route *Route, request *Request) (*Response, e
 	}
 
 	// Extract and process query parameters with type conversion
-	rawQueryParams, err := ExtractRawQueryParams(request.Path)
+	querySource := request.Path
+	if request.HasRawQuery {
+		querySource = "?" + request.RawQuery
+	}
+	rawQueryParams, err := ExtractRawQueryParams(querySource)
 	if err != nil {
 		return &Response{
 			StatusCode: 400,
